@@ -31,7 +31,7 @@ namespace Givaro {
         if (n < 2) return 0;
         if (n <= 3) return 1;
         IntPrimeDom::Rep t=n-1,a,q;
-        random(g,a,n);
+        nonzerorandom(g,a,n); // a witness in [1,n-1]: the base 0 would reject every prime
         long s=0;
         for( ; !( (int)t & 0x1) ; t>>=1, ++s) { }
         powmod(q,a,t,n);
